@@ -408,7 +408,8 @@ class Engine:
                 idx.append(oi)
                 items.append(self.item_coq(op, self.canon(op, obsA.get(oi, "panic"))))
             per.append((idx, items))
-        nsh = 16 if len(traces) >= 32 else max(1, len(traces) // 2)
+        # at most ~400 traces per coqc process (about 1 GB; 1750 traces took 4.3 GB and met the OOM killer), 16 processes at a time
+        nsh = max(16, (len(traces) + 399) // 400) if len(traces) >= 32 else max(1, len(traces) // 2)
         jobs, owner = [], []
         for si in range(nsh):
             mine = list(range(si, len(traces), nsh))
